@@ -245,8 +245,11 @@ def gen_T16():
     before, after = [x for x in stm[:chk[0]] if touch(x)], [x for x in stm[chk[0] + 1:]]
     need(all(x in ('nicks = self.nicks.setdefault(network, [])',) for x in before), 'IrcUser.addNick mutates before the check in an unknown way: %r' % before)
     need(any('append(nick)' in x for x in after) and not any('raise' in x for x in after), 'IrcUser.addNick tail changed: %r' % after)
-    need([x for x in stm[:chk[0]] if not touch(x)] == ['global users', 'assert isinstance(network, minisix.string_types)',
-                                                       "assert ircutils.isNick(nick), 'got %s' % nick"], 'IrcUser.addNick head changed: %r' % stm)
+    head = [x for x in stm[:chk[0]] if not touch(x)]
+    WS_CHECK = "if network.split() != [network] or nick.split() != [nick]:"
+    addnick_ws = len(head) == 4 and head[3].startswith(WS_CHECK) and 'raise ValueError(' in head[3] and head[3].count('\n') == 1
+    need(head[:3] == ['global users', 'assert isinstance(network, minisix.string_types)', "assert ircutils.isNick(nick), 'got %s' % nick"]
+         and (len(head) == 3 or addnick_ws), 'IrcUser.addNick head changed: %r' % stm)
     addnick_pre = bool(before)
     rn = ast.unparse(find_def(d, 'removeNick', 'IrcUser'))
     need('if nick not in self.nicks[network]:\n        raise KeyError\n    self.nicks[network].remove(nick)' in rn, 'IrcUser.removeNick changed: ' + rn)
@@ -282,6 +285,8 @@ def gen_T16():
         'true' if reader_utf8 else 'false', 'true' if ign_utf8 else 'false')
     out += 'Definition ADDNICK_LIST_BEFORE_CHECK : bool := %s.  (* addNick creates nicks[network] before the "already taken" check *)\n' % (
         'true' if addnick_pre else 'false')
+    out += 'Definition ADDNICK_REFUSES_WHITESPACE : bool := %s.  (* addNick raises ValueError unless network and nick are single tokens *)\n' % (
+        'true' if addnick_ws else 'false')
     out += 'Definition REMOVENICK_DROPS_EMPTY : bool := %s.  (* removeNick deletes nicks[network] with its last nick *)\n' % (
         'true' if removenick_drops else 'false')
     out += '(* writer keywords, from the format strings of the preserve/flush methods *)\n'
